@@ -500,11 +500,38 @@ impl Prop for SettersAtRangeEnds {
             (Some(w), Ok(Err(e))) => fail(&format!("c15.{}.rejects_valid_at_range_end", name), format!("{} = Ok({})", what, fmt_instant(w)), format!("Err({})", e)),
             (None, Ok(Ok(i))) => fail(&format!("c15.{}.accepts_unrepresentable", name), format!("{} = Err(OutOfRange)", what), format!("Ok({})", fmt_instant(i))),
             (None, Ok(Err(e))) => {
-                if matches!(e, AstrolabeError::OutOfRange(_)) {
-                    Verdict::Pass
-                } else {
-                    fail(&format!("c15.{}.wrong_error_kind", name), "OutOfRange", format!("{:?}", e))
+                if !matches!(e, AstrolabeError::OutOfRange(_)) {
+                    return fail(&format!("c15.{}.wrong_error_kind", name), "OutOfRange", format!("{:?}", e));
                 }
+                // where the message states a range, the range contains every accepted value and
+                // excludes the rejected one - also when the value is the resulting instant
+                // ("nanoseconds": nanoseconds since 0001-01-01T00:00:00Z, the crate's time line)
+                let msg = e.to_string();
+                if let Some((mname, lo, hi)) = parse_range_message(&msg) {
+                    if mname == "nanoseconds" {
+                        if let Some(wl) = want_local {
+                            cx.nt("instant_range_in_the_message_checked");
+                            let rejected = wl - c.off as i128 * tl::NS;
+                            let (first, last) = (cal::MIN_DAY as i128 * tl::DAY_NS, (cal::MAX_DAY as i128 + 1) * tl::DAY_NS - 1);
+                            if (lo..=hi).contains(&rejected) {
+                                return fail(&format!("c15.{}.message_range_contains_rejected_value", name), format!("{}: message {:?} names a range that excludes the rejected instant {} ns", what, msg, rejected), "the stated range contains it".to_string());
+                            }
+                            if lo > first || hi < last {
+                                return fail(
+                                    &format!("c15.{}.message_range_excludes_accepted_value", name),
+                                    format!("{}: message {:?} names a range containing every accepted instant ({}..={} ns since 0001-01-01Z are representable and reachable through this setter)", what, msg, first, last),
+                                    format!("{}..={}", lo, hi),
+                                );
+                            }
+                        }
+                    } else if name.strip_prefix("set_") == Some(mname.as_str()) || (mname == "day_of_year" && c.field == 3) {
+                        cx.label("argument_range_in_the_message_checked");
+                        if (lo..=hi).contains(&(c.v as i128)) {
+                            return fail(&format!("c15.{}.message_range_contains_rejected_value", name), format!("{}: message {:?} names a range that excludes the rejected {}", what, msg, c.v), "the stated range contains it".to_string());
+                        }
+                    }
+                }
+                Verdict::Pass
             }
         }
     }
